@@ -40,6 +40,14 @@ where
     }
 }
 
+#[cfg(gluon_verif)]
+impl<T> Reference<T> {
+    /// The current contents of the cell (unrooted copy)
+    pub(crate) unsafe fn verif_value(&self) -> Value {
+        unsafe { self.value.lock().unwrap().clone_unrooted() }
+    }
+}
+
 impl<T> fmt::Debug for Reference<T> {
     fn fmt(&self, f: &mut fmt::Formatter) -> fmt::Result {
         write!(f, "Ref({:?})", *self.value.lock().unwrap())
